@@ -41,11 +41,17 @@ var c09nameSchemes = []c09names{
 	{"definition-a.a", "a.a", "n", "q", "X-N"},
 }
 
+// scheme used only by the composite-value cases below: a member NAMED type holding the word "array"
+var c09typeScheme = c09names{"type", "Obj", "type", "type", "X-N"}
+
 func c09namesByID(id string) c09names {
 	for _, n := range c09nameSchemes {
 		if n.ID == id {
 			return n
 		}
+	}
+	if id == c09typeScheme.ID {
+		return c09typeScheme
 	}
 	panic("c09: unknown name scheme " + id)
 }
@@ -63,6 +69,10 @@ var c09schemaLeaves = []c09leaf{
 	{"obj", `{"type":"object","required":["k"],"properties":{"k":{"type":"integer"}}}`, `{"k":1}`, `{"k":"x"}`},
 }
 
+// a leaf whose accepted value is a word the Swagger-only pre-checks look for in schema objects
+// ("type": "array"); used with the name scheme "type" only
+var c09kwLeaf = c09leaf{"kw", `{"type":"string","enum":["array","object"]}`, `"array"`, `"nope"`}
+
 var c09simpleLeaves = []c09leaf{
 	{"int", `{"type":"integer","maximum":5}`, `3`, `7`},
 	{"str", `{"type":"string","enum":["a","b"]}`, `"a"`, `"c"`},
@@ -77,6 +87,9 @@ func c09leafByID(fam, id string) c09leaf {
 		if x.ID == id {
 			return x
 		}
+	}
+	if id == c09kwLeaf.ID {
+		return c09kwLeaf
 	}
 	panic("c09: unknown leaf " + id)
 }
@@ -645,6 +658,14 @@ func c09groups(quick bool) []c09Case {
 	// composite values reaching the leaf through named members, every name scheme
 	for _, nmID := range allNames {
 		add(c09Case{Fam: "schema", Root: "definition", Chain: []string{"properties", "properties"}, Slot: 0, Names: nmID, Leaf: "int", Cont: true})
+	}
+
+	// values that look like schema objects: {"type":"array"} (a member named type holding the word
+	// array, no member items) as the value itself and one level down
+	for _, root := range []string{"definition", "response", "body"} {
+		add(c09Case{Fam: "schema", Root: root, Chain: []string{"properties"}, Slot: 0, Names: "type", Leaf: "kw", Cont: true})
+		add(c09Case{Fam: "schema", Root: root, Chain: []string{"properties", "properties"}, Slot: 0, Names: "type", Leaf: "kw", Cont: true})
+		add(c09Case{Fam: "schema", Root: root, Chain: []string{"properties", "properties"}, Slot: 1, Names: "type", Leaf: "kw", Cont: true})
 	}
 
 	// --- simple family
